@@ -91,10 +91,11 @@ FIELD_AXIS = {     # class axis of every model field, counted from the end
 }
 
 
-def mstep_perm(kind, K, N=3, D=2, ctype='full', wca=(-1,)):
+def mstep_perm(kind, K, N=3, D=2, ctype='full', wca=(-1,), cov_norm='eigenvalue', floor=1e-10, nolead=False):
     from pb_bss.distribution import cacgmm, cwmm, gmm, vmfmm, gcacgmm, vmfcacgmm
     from pb_bss.distribution import complex_watson as cw
     F = 2
+    LS = () if nolead else (F,)           # leading (independent) axes of the stack
     cplx = kind in ('cacgmm', 'cwmm', 'gcacgmm', 'vmfcacgmm')
     integration = kind in ('gcacgmm', 'vmfcacgmm')
     perms = [p for p in itertools.permutations(range(K)) if p != tuple(range(K))]
@@ -111,10 +112,10 @@ def mstep_perm(kind, K, N=3, D=2, ctype='full', wca=(-1,)):
         return ps
 
     def make(B):
-        a = {'y': B.cplx('y', (F, N, D)) if cplx else B.real('y', (F, N, D)),
-             'g': B.real('g', (F, K, N), lo=0.0, lo_strict=True, dist=(0.05, 1.0)),
-             's': B.real('s', (F, N), lo=0.0, lo_strict=True, dist=(0.2, 2.0)),
-             'q': B.real('q', (F, K, N), lo=0.0, lo_strict=True, dist=(0.5, 2.0))}
+        a = {'y': B.cplx('y', LS + (N, D)) if cplx else B.real('y', LS + (N, D)),
+             'g': B.real('g', LS + (K, N), lo=0.0, lo_strict=True, dist=(0.05, 1.0)),
+             's': B.real('s', LS + (N,), lo=0.0, lo_strict=True, dist=(0.2, 2.0)),
+             'q': B.real('q', LS + (K, N), lo=0.0, lo_strict=True, dist=(0.5, 2.0))}
         if integration:
             a['e'] = B.real('e', (F, N, Ed))
         return a
@@ -122,7 +123,7 @@ def mstep_perm(kind, K, N=3, D=2, ctype='full', wca=(-1,)):
     def one(a, g, q):
         if kind == 'cacgmm':
             m = cacgmm.CACGMMTrainer()._m_step(np.swapaxes(a['y'], -1, -2), q, affiliation=g, saliency=a['s'], hermitize=True,
-                                               covariance_norm='eigenvalue', eigenvalue_floor=1e-10, weight_constant_axis=wca)
+                                               covariance_norm=cov_norm, eigenvalue_floor=floor, weight_constant_axis=wca)
             return {'weight': m.weight, 'V': m.cacg.covariance_eigenvectors, 'lam': m.cacg.covariance_eigenvalues}
         if kind == 'cwmm':
             m = cwmm.CWMMTrainer(dimension=D)._m_step(a['y'], affiliation=g, saliency=a['s'], weight_constant_axis=wca)
@@ -158,7 +159,8 @@ def mstep_perm(kind, K, N=3, D=2, ctype='full', wca=(-1,)):
 
     func = {'cacgmm': 'cacgmm:CACGMMTrainer', 'cwmm': 'cwmm:CWMMTrainer', 'gmm': 'gmm:GMMTrainer', 'vmfmm': 'vmfmm:VMFMMTrainer',
             'gcacgmm': 'gcacgmm:GCACGMMTrainer', 'vmfcacgmm': 'vmfcacgmm:VMFCACGMMTrainer'}[kind]
-    return Instance('C05', DN + func + '._m_step', '%s-K%d%s-wca%s' % (kind, K, '-' + ctype if kind == 'gmm' else '', str(wca).replace(' ', '')),
+    extra = ('' if cov_norm == 'eigenvalue' else '-norm%s-floor%g' % (cov_norm, floor)) + ('-nolead' if nolead else '')
+    return Instance('C05', DN + func + '._m_step', '%s-K%d%s-wca%s%s' % (kind, K, '-' + ctype if kind == 'gmm' else '', str(wca).replace(' ', ''), extra),
                     make, call, ensures, patches=patches, definedness=False, crosscheck=False, timeout=30.0, native_n=3)
 
 
@@ -224,6 +226,14 @@ def instances(tier):
         for K in (2, 3):
             out.append(mstep_perm(kind, K))
     out.append(mstep_perm('cacgmm', 2, wca=(-3,)))
+    # single problem without a leading axis (the class axis is the first one) and the relative eigenvalue floors
+    out.append(mstep_perm('cacgmm', 3, nolead=True))
+    out.append(mstep_perm('cacgmm', 3, cov_norm='trace', floor=1e-3, nolead=True))
+    out.append(mstep_perm('cacgmm', 2, cov_norm=False, floor=1e-3, nolead=True))
+    out.append(mstep_perm('cacgmm', 2, cov_norm='trace', floor=1e-3))
+    out.append(mstep_perm('gmm', 3, nolead=True))
+    out.append(mstep_perm('cwmm', 3, nolead=True))
+    out.append(mstep_perm('vmfmm', 3, nolead=True))
     for ct in ('full', 'diagonal', 'spherical'):
         out.append(mstep_perm('gmm', 2, ctype=ct))
     out.append(mstep_perm('gmm', 3, ctype='full'))
